@@ -387,8 +387,20 @@ pub fn check(prop: &str, tier_name: &str) -> i32 {
         if status == "exit 3" {
             continue; // wall-clock hang (in a world or in a reference run): the worker sent a V before exiting
         }
-        if let Some(w) = world_of_tag(prop, base, &tag, &corpus) {
-            let class = classify_death(&status, &diag);
+        if let Some(mut w) = world_of_tag(prop, base, &tag, &corpus) {
+            let mut class = classify_death(&status, &diag);
+            if w.stdio != 0 && !class.starts_with("stack") && !class.starts_with("alloc@") {
+                // the runtime could not print why it aborted (the world broke stderr): ask the same world with
+                // its diagnostic streams intact, and keep that world if it dies too
+                let mut w2 = w.clone();
+                w2.stdio = 0;
+                if let Err((s2, d2)) = run_worlds_fresh(prop, std::slice::from_ref(&w2), 60) {
+                    if s2 != "harness" {
+                        class = classify_death(&s2, &d2);
+                        w = w2;
+                    }
+                }
+            }
             let key = abort_key(&class, &w);
             by_key.entry(key.clone()).or_default().push(VMsg {
                 tag,
@@ -568,6 +580,23 @@ pub fn check(prop: &str, tier_name: &str) -> i32 {
         // smallest world first
         let mut cands: Vec<&VMsg> = vs.iter().collect();
         cands.sort_by_key(|v| v.worlds.iter().map(|w| w.jobs.iter().map(|j| j.source.0.len()).sum::<usize>()).sum::<usize>());
+        if key.starts_with("MEMGROW|") {
+            // the search cap (64 MiB + 4 KiB per *input* byte) is a suspicion, like the 10 s backstop: macro
+            // expansion multiplies the text the compiler works on. A suspect that completes alone under 1.1 GiB
+            // (the workers' address space is 1.5 GiB) is large but finite, not unbounded growth
+            std::env::set_var("SIMC_MEM_CAP_MB", "1100");
+            let finite = cands.iter().take(3).all(|v| match run_worlds_fresh(prop, &v.worlds, 200) {
+                Ok((vs, _)) => !vs.iter().any(|x| x.class == "MEMGROW" || x.class == "HANG" || x.class == "HANGWALL"),
+                Err(_) => false,
+            });
+            std::env::remove_var("SIMC_MEM_CAP_MB");
+            if finite {
+                println!("simc: memory suspect {} completed under a 1.1 GiB heap when re-run alone: dropped", key);
+                *agg.stats.entry("memory_suspects_dropped".into()).or_insert(0) += 1;
+                unknown_keys -= 1;
+                continue;
+            }
+        }
         let mut done = false;
         for v in cands.iter().take(3) {
             match confirm_and_minimise(&root, v) {
